@@ -2,8 +2,9 @@ package c05
 
 // C05 — `git lfs prune` never deletes an object that is still needed or not yet pushed.
 //
-// E2E exploration on the real git-lfs binary: three exhaustive products (structural, dates, configuration) of tiny
-// real repositories x flags x retention windows x server states; oracle = reference retention set computed by
+// E2E exploration on the real git-lfs binary: five exhaustive products (structural, dates, configuration, filters =
+// lfs.fetchinclude x lfs.fetchexclude, remotes = two remotes with their own LFS servers x lfs.pruneremotetocheck) of
+// tiny real repositories x flags x retention windows x server states; oracle = reference retention set computed by
 // git plumbing (c05_model_verif_test.go).  One execution = one `git lfs prune` run, a deterministic function of
 // the choice vector.
 
@@ -110,8 +111,23 @@ func c05Deviations(spec worldSpec, p caseParams) []deviation {
 		c := c
 		ds = append(ds, deviation{"cfg=" + c05Ambient[c].Name, func(s *worldSpec, q *caseParams) { q.Cfgs = append(q.Cfgs, c) }})
 	}
-	if p.Fx {
-		ds = append(ds, deviation{"fetchexclude", func(s *worldSpec, q *caseParams) { q.Fx = true }})
+	if p.Exc != "" {
+		e := p.Exc
+		ds = append(ds, deviation{"fetchexclude", func(s *worldSpec, q *caseParams) { q.Exc = e }})
+	}
+	if p.Inc != "" {
+		i := p.Inc
+		ds = append(ds, deviation{"fetchinclude", func(s *worldSpec, q *caseParams) { q.Inc = i }})
+	}
+	if p.Two {
+		if p.PR > 0 {
+			pr := p.PR
+			ds = append(ds, deviation{"pruneremotetocheck=" + c05PRNames[pr], func(s *worldSpec, q *caseParams) { q.PR = pr }})
+		}
+		if p.Track > 0 {
+			t := p.Track
+			ds = append(ds, deviation{"default-remote:" + c05Tracks[t].Name, func(s *worldSpec, q *caseParams) { q.Track = t }})
+		}
 	}
 	return ds
 }
@@ -131,9 +147,16 @@ func c05Causes(spec worldSpec, p caseParams, o *evalOut) (map[rawViol]string, st
 		}
 		return causes, ""
 	}
-	variant := func(sel []deviation) (map[[2]string]bool, string) {
+	// retention clauses do not depend on remote verification, but a halting --verify-remote (exit 2, nothing deleted)
+	// hides every deletion: for those clauses a variant is also evaluated without the verification flags
+	retention := map[string]bool{"head": true, "index": true, "stash": true, "unpushed": true, "recent-ref": true, "recent-commit": true}
+	halting := p.Verify == 1 || p.Verify == 3
+	variant1 := func(sel []deviation, noVerify bool) (map[[2]string]bool, string) {
 		s, q := spec, p
-		s.Attr, q.Cfgs, q.Fx = 0, nil, false
+		s.Attr, q.Cfgs, q.Exc, q.Inc, q.PR, q.Track = 0, nil, "", "", 0, 0
+		if noVerify {
+			q.Verify, q.Server, q.Hold = 0, 0, 0
+		}
 		for _, d := range sel {
 			d.apply(&s, &q)
 		}
@@ -153,6 +176,26 @@ func c05Causes(spec worldSpec, p caseParams, o *evalOut) (map[rawViol]string, st
 			return nil, vo.Tool
 		}
 		return c05Remember(key, &vo), ""
+	}
+	variant := func(sel []deviation) (map[[2]string]bool, string) {
+		m, terr := variant1(sel, false)
+		if terr != "" || !halting {
+			return m, terr
+		}
+		m2, terr := variant1(sel, true)
+		if terr != "" {
+			return nil, terr
+		}
+		u := map[[2]string]bool{}
+		for k := range m {
+			u[k] = true
+		}
+		for k := range m2 {
+			if retention[k[0]] {
+				u[k] = true
+			}
+		}
+		return u, ""
 	}
 	nominal, terr := variant(nil)
 	if terr != "" {
@@ -239,7 +282,11 @@ func c05Case(spec worldSpec, p caseParams, confirm bool) vx.Result {
 	if nd > 3 {
 		nd = 3
 	}
-	r.Outcome = fmt.Sprintf("%s|srv%d|exit%d|deleted%d|kept-only-by:%s", strings.Join(p.args()[1:], " "), p.Server, o.Code, nd, strings.Join(sole, ","))
+	srv := fmt.Sprintf("srv%d", p.Server)
+	if p.Two {
+		srv = "prune-remote=" + p.pruneRemote() + ",servers=" + c05Holds[p.Hold]
+	}
+	r.Outcome = fmt.Sprintf("%s|%s|exit%d|deleted%d|kept-only-by:%s", strings.Join(p.args()[1:], " "), srv, o.Code, nd, strings.Join(sole, ","))
 	dem := wd.facts.demands(p)
 	demanded := map[string][]string{}
 	for oid, ds := range dem {
@@ -255,7 +302,7 @@ func c05Case(spec worldSpec, p caseParams, confirm bool) vx.Result {
 		}
 		sort.Strings(part)
 		r.NonTrivial = []string{fmt.Sprintf("%016x", vx.Hash64(spec.Hist, spec.Head, spec.Push, spec.Local, fmt.Sprint(spec.Attr, spec.Flavor),
-			fmt.Sprint(p.Mode, p.Dry, p.Verify, p.Server, p.Fx, p.Cfgs), strings.Join(part, ";")))}
+			fmt.Sprint(p.Mode, p.Dry, p.Verify, p.Server, p.Exc, p.Cfgs, p.Inc, p.Two, p.PR, p.Track, p.Hold), strings.Join(part, ";")))}
 	}
 	var store []string
 	for oid := range gitx.StoreOids(wd.lfsdir) {
@@ -397,9 +444,10 @@ func c05Products(thorough bool) []product {
 		"histories": len(hh), "push_states": pushes, "local_states": locals, "date_profiles": len(profiles)},
 		decode: func(x *vx.X) (worldSpec, caseParams) {
 			var p caseParams
-			p.Fx = x.In(2) == 1
+			fx := x.In(2) == 1
 			fl := flagsA
-			if p.Fx {
+			if fx {
+				p.Exc = "b.bin"
 				fl = flagsNoVerify
 			}
 			f := fl[x.In(len(fl))]
@@ -409,7 +457,7 @@ func c05Products(thorough bool) []product {
 			}
 			pi := x.In(len(profiles))
 			w := winA[:1]
-			if pi == 1 && !p.Fx {
+			if pi == 1 && !fx {
 				w = winA
 			}
 			wi := w[x.In(len(w))]
@@ -494,13 +542,95 @@ func c05Products(thorough bool) []product {
 				if p.Verify > 0 {
 					p.Server = 1
 				}
-				if thorough {
-					p.Fx = x.In(2) == 1
+				if thorough && x.In(2) == 1 {
+					p.Exc = "b.bin"
 				}
 			}
 			return worldsB[x.In(len(worldsB))], p
 		}}
-	return []product{structural, dates, config}
+
+	// ---- filters: lfs.fetchinclude x lfs.fetchexclude over rich worlds (one object per retention class, LFS files in
+	// the directory d/ and in the root, so that every pattern leaves some class inside and some class outside)
+	pats := []string{"", "*.bin", "d", "d/a.bin", "b.bin"}
+	richF := []worldSpec{{Hist: "R1", Flavor: 2}, {Hist: "R3", Flavor: 2}}
+	flagsF := []flagSet{{0, false, 0}, {0, false, 2}}
+	if thorough {
+		pats = append(pats, "a.bin")
+		richF = nil
+		for _, h := range []string{"R0", "R1", "R2", "R3"} {
+			for _, fl := range []int{0, 2} {
+				richF = append(richF, worldSpec{Hist: h, Flavor: fl})
+			}
+		}
+		flagsF = []flagSet{{0, false, 0}, {1, false, 0}, {2, false, 0}, {0, true, 0}, {0, false, 1}, {0, false, 2}, {0, false, 4}}
+	}
+	for i := range richF {
+		richF[i].Head, richF[i].Push, richF[i].Local = "main", "full", "all"
+	}
+	richF = c05Thin(richF)
+	filters := product{name: "filters", bounds: map[string]interface{}{"base_worlds": len(richF), "patterns": pats, "fetchinclude": len(pats), "fetchexclude": len(pats),
+		"flag_sets": len(flagsF), "window": "refs=7 commits=3 offset=1", "server": "under --verify-remote the server lacks every reachable prunable candidate (thorough, --verify-unreachable: every unreachable one)",
+		"paths": "flavour 2: d/a.bin (all history classes), b.bin, n.bin, u.bin in the root; thorough also flavour 0: a.bin in the root"},
+		decode: func(x *vx.X) (worldSpec, caseParams) {
+			p := caseParams{R: 7, C: 3, O: 1}
+			p.Inc = pats[x.In(len(pats))]
+			p.Exc = pats[x.In(len(pats))]
+			f := flagsF[x.In(len(flagsF))]
+			p.Mode, p.Dry, p.Verify = f.Mode, f.Dry, f.Verify
+			if p.Verify > 0 {
+				p.Server = 1
+				if p.Verify >= 3 {
+					p.Server = 2
+				}
+			}
+			return richF[x.In(len(richF))], p
+		}}
+
+	// ---- remotes: two remotes (origin, upstream) with their own push state and their own LFS server
+	type pushPair struct{ O, U string }
+	pairs := []pushPair{{"full", "full"}, {"full", "none"}, {"none", "full"}, {"partial", "full"}, {"full", "partial"}}
+	histsR := []string{"L3"}
+	nTracks, nHolds := 2, 5
+	flagsR := []flagSet{{0, false, 0}, {0, false, 1}, {0, false, 4}}
+	var worldsR []worldSpec
+	if thorough {
+		flagsR = []flagSet{{0, false, 0}, {0, false, 1}, {0, false, 2}, {0, false, 4}}
+		pairs = nil
+		for _, o := range []string{"none", "partial", "full"} {
+			for _, u := range []string{"", "none", "partial", "full"} {
+				pairs = append(pairs, pushPair{o, u})
+			}
+		}
+		nTracks, nHolds = len(c05Tracks), len(c05Holds)
+		for _, pp := range []pushPair{{"full", "full"}, {"full", "none"}, {"none", "full"}} {
+			worldsR = append(worldsR, worldSpec{Hist: "BR", Head: "main", Push: pp.O, PushU: pp.U, Local: "none", Ages: profiles[0]})
+		}
+	}
+	for _, h := range histsR {
+		for _, pp := range pairs {
+			worldsR = append(worldsR, worldSpec{Hist: h, Head: "main", Push: pp.O, PushU: pp.U, Local: "none", Ages: profiles[0]})
+		}
+	}
+	worldsR = c05Thin(worldsR)
+	var trackNames []string
+	for _, t := range c05Tracks[:nTracks] {
+		trackNames = append(trackNames, t.Name)
+	}
+	remotes := product{name: "remotes", bounds: map[string]interface{}{"worlds": len(worldsR), "push_state_pairs_origin_upstream": fmt.Sprint(pairs), "pruneremotetocheck": c05PRNames,
+		"default_remote_settings": trackNames, "flag_sets": len(flagsR), "server_holdings": c05Holds[:nHolds], "window": "refs=7 commits=0 offset=3, all commits older than 30 days",
+		"histories": "L3 (thorough: also BR with the push pairs full/full, full/none, none/full)"},
+		decode: func(x *vx.X) (worldSpec, caseParams) {
+			p := caseParams{R: 7, C: 0, O: 3, Two: true}
+			p.PR = x.In(len(c05PRNames))
+			p.Track = x.In(nTracks)
+			f := flagsR[x.In(len(flagsR))]
+			p.Mode, p.Dry, p.Verify = f.Mode, f.Dry, f.Verify
+			if p.Verify > 0 {
+				p.Hold = x.EnvC(nHolds)
+			}
+			return worldsR[x.In(len(worldsR))], p
+		}}
+	return []product{structural, dates, config, filters, remotes}
 }
 
 func TestVerifC05(t *testing.T) {
@@ -516,16 +646,22 @@ func TestVerifC05(t *testing.T) {
 		c.Tier = rf.Tier // the choice vector is relative to the bounds of the tier that produced it
 	}
 	prods := c05Products(c.Thorough())
-	c.Rule = "three exhaustive products, one real `git lfs prune` per case: (structural) history shape x HEAD position x push state x stash/worktree/index state x date profile " +
+	c.Rule = "five exhaustive products, one real `git lfs prune` per case: (structural) history shape x HEAD position x push state x stash/worktree/index state x date profile " +
 		"x flag set x server state x window; (dates) every parent-not-newer age vector over the stated day set x every (refsdays,commitsdays,offsetdays) window; " +
-		"(config) rich worlds holding one object per retention class x attribute spelling x ambient git config (none, singles; thorough: pairs) x flags x fetchexclude. " +
+		"(config) rich worlds holding one object per retention class x attribute spelling x ambient git config (none, singles; thorough: pairs) x flags x fetchexclude; " +
+		"(filters) rich worlds with LFS files in a directory and in the root, one object per retention class x lfs.fetchinclude pattern x lfs.fetchexclude pattern (unset, everything, one directory, one file by path, one file name) x flags incl. --verify-remote halting/continuing; " +
+		"(remotes) remotes origin and upstream with their own push states and their own LFS servers x lfs.pruneremotetocheck {unset, origin, upstream} x default-remote setting x flags x which server holds which prunable candidate (uniform: both / origin only / upstream only / neither; rotations over the candidates). " +
 		"A case is non-trivial when the local store holds at least one object the model requires to survive and at least one it does not; two cases are the same retention problem (counted once in distinct_nontrivial) " +
-		"when they agree on history shape/HEAD/push/local state/attribute spelling, flags, server state, ambient config, fetchexclude and on the set of clauses protecting each object (so dates and windows only count through the partition they induce)"
+		"when they agree on history shape/HEAD/push/local state/attribute spelling, flags, server state(s), ambient config, fetchexclude, fetchinclude, prune remote, default-remote setting and on the set of clauses protecting each object (so dates and windows only count through the partition they induce)"
 	c.Assumptions = []string{
 		"commit dates are now-(k days+12h-slot hours), so every comparison with a day-granular window is >= 6 h away from its boundary; parents are never newer than children",
 		"--force is read as documented: it gives up the objects of checked-out refs (HEAD trees, index entries identical to HEAD) and implies --recent; stashes, staged changes and unpushed objects stay required",
-		"lfs.fetchexclude is read as documented: an excluded path is protected only by the stash and unpushed clauses",
-		"an object counts as unpushed when a commit reachable from a local branch/tag but not from refs/remotes/origin/* references it and no commit reachable from refs/remotes/origin/* does",
+		"lfs.fetchexclude is read as documented: an excluded path is protected only by the stash and unpushed clauses (and, with --verify-remote, by the verification of reachable objects: the man page makes excluded files prunable, not exempt from the check the user asked for)",
+		"lfs.fetchinclude is read as documented (git-lfs-config(5): a fetch setting; git-lfs-prune(1) names only lfs.fetchexclude): the retention set does not depend on it",
+		"patterns are matched as gitignore(5) says; the model holds one hand-written predicate per enumerated pattern: *.bin = every file ending in .bin, d = everything below the directory d, d/a.bin = that path only, b.bin / a.bin = files of that name in any directory",
+		"the prune remote is lfs.pruneremotetocheck, default origin (git-lfs-prune(1) DEFAULT REMOTE); branch.<name>.remote, remote.lfsdefault and remote.pushdefault select git-lfs's default/push remote and are not documented to influence prune",
+		"an object counts as unpushed when a commit reachable from a local branch/tag but not from refs/remotes/<prune remote>/* references it and no commit reachable from refs/remotes/<prune remote>/* does; a prune remote without remote-tracking refs makes everything reachable from local branches/tags unpushed",
+		"with --verify-remote 'the remote' is the LFS endpoint of the prune remote (remote.<name>.lfsurl in the two-remote product, lfs.url elsewhere); what the other remote's server holds is irrelevant",
 		"a stash protects what its WIP/index/untracked commits add on top of the stash's base commit",
 		"recent ref = local or remote-tracking branch whose tip is younger than refsdays+offsetdays (refsdays>0); recent commit = ancestor of HEAD or of a recent ref, younger than that tip minus (commitsdays+offsetdays) (commitsdays>0)",
 		"remote refs are updated by real `git push` with GIT_LFS_SKIP_PUSH=1; what the LFS server holds is chosen by the harness (fakelfs)",
@@ -559,9 +695,9 @@ func TestVerifC05(t *testing.T) {
 	}
 	deadline := c.DeadlineAfter(300*time.Second, 22*time.Minute)
 	// the three products run side by side, sharing the cores roughly in proportion to their size
-	share := map[string]int{"structural": 12, "dates": 6, "config": 6}
+	share := map[string]int{"structural": 12, "dates": 6, "config": 6, "filters": 3, "remotes": 5}
 	if c.Thorough() {
-		share = map[string]int{"structural": 13, "dates": 7, "config": 4}
+		share = map[string]int{"structural": 13, "dates": 7, "config": 4, "filters": 3, "remotes": 5}
 	}
 	var parts []vx.Part
 	var wg sync.WaitGroup
